@@ -115,6 +115,13 @@ def check_change_flag(rep, rule, fi, state):
     old_i, old_a = olds[0]
     st_i, st_a = stores[0]
     r = rets[0][1].value
+    if isinstance(r, ast.Name):
+      # the verdict through a local (`changed = old != new; return changed`):
+      # its one definition, which must lie after the store
+      defs_ = [(i, a) for i, (k, a) in enumerate(g.nodes) if isinstance(a, ast.Assign)
+               and len(a.targets) == 1 and core.norm(a.targets[0]) == r.id]
+      if len(defs_) == 1 and defs_[0][0] in dom[rets[0][0]]:
+        r = defs_[0][1].value
     facts = {'returns': core.norm(r), 'old': core.norm(old_a), 'store': core.norm(st_a)}
     ok = old_i in dom[st_i] and st_i in dom[rets[0][0]] and isinstance(
         r, ast.Compare) and len(r.ops) == 1 and isinstance(r.ops[0], ast.NotEq) and \
